@@ -258,3 +258,40 @@ m('c17-visit-str-through-f64', ['C17'], 'R-NOCALL', [
 m('c17-serialize-via-f64', ['C17'], 'R-FWD', [
   ('src/impl_serde.rs', "        serializer.collect_str(&self)", "        match num_traits::ToPrimitive::to_f64(self) { Some(f) if self.digits() < 15 => serializer.serialize_f64(f), _ => serializer.collect_str(&self) }")],
   'short decimals serialised as binary floats')
+# ---- C04 / C16
+m('c04-exponent-symbol-unparseable', ['C04'], 'ALPHABET', [
+  ('src/impl_fmt.rs', """        let abs_int = self.digits.to_str_radix(10);
+        format_exponential(*self, f, abs_int, "E")
+    }
+}
+
+
+impl fmt::Debug""", """        let abs_int = self.digits.to_str_radix(10);
+        format_exponential(*self, f, abs_int, "x10^")
+    }
+}
+
+
+impl fmt::Debug""")],
+  '{:E} prints 1.5x10^3, which the parser rejects')
+m('c04-engineering-space', ['C04'], 'ALPHABET', [
+  ('src/impl_fmt.rs', 'return out.write_str("0e0");', 'return out.write_str("0 e0");')],
+  'zero renders with a space in one notation only')
+m('c04-display-leading-threshold-literal', ['C04', 'C20'], ':thresholds', [
+  ('src/impl_fmt.rs', """            self.to_ref(),
+            f,
+            EXPONENTIAL_FORMAT_LEADING_ZERO_THRESHOLD,""", """            self.to_ref(),
+            f,
+            5,""")],
+  'owned Display hard-codes the lower threshold')
+m('c16-format-sign-constant', ['C16'], 'pad_integral:is_nonnegative', [
+  ('src/impl_fmt.rs', """    // write buffer to formatter
+    f.pad_integral(non_negative, "", &buf)""", """    // write buffer to formatter
+    f.pad_integral(true, "", &buf)""")],
+  'negative numbers lose their sign when formatted in plain notation')
+m('c16-width-changes-digits', ['C16'], 'FLAGS', [
+  ('src/impl_fmt.rs', "        let target_scale = f.precision().and_then(|prec| prec.to_u64()).unwrap_or(scale);", "        let target_scale = f.precision().or(f.width()).and_then(|prec| prec.to_u64()).unwrap_or(scale);")],
+  'a width without precision is (mis)used as precision: digits change')
+m('c16-rounding-sign-dropped', ['C16', 'C20'], 'PROV-FMTROUND', [
+  ('src/impl_fmt.rs', "let rounder = NonDigitRoundingData::default_with_sign(this.sign);", "let rounder = NonDigitRoundingData::default_with_sign(Sign::Plus);")],
+  'precision formatting rounds negatives as positives (Floor/Ceiling defaults)')
